@@ -156,7 +156,7 @@ Print Assumptions conformance_check_sound.
     that is not itself a scalar or an enum), for every Go type it accepts … *)
 Theorem nonnull_exactly_when_go_type_cannot_be_nil :
   forall (force : bool) (g : gotype) (t : tref),
-    get_type force g = Some t -> is_nonnull t = negb (admits_nil g).
+    get_type force g = Some t -> is_nonnull t = negb (can_be_nil g).
 Proof. exact get_type_nullable. Qed.
 Print Assumptions nonnull_exactly_when_go_type_cannot_be_nil.
 
@@ -174,8 +174,8 @@ Theorem advertised_nullability_of_a_field :
   forall (k : fkind) (g : gotype) (t : tref),
     field_type k g = Some t ->
     is_nonnull t = match k with
-                   | KStructField => negb (admits_nil g)
-                   | KFunc nn _ => nn || negb (admits_nil g)
+                   | KStructField => negb (can_be_nil g)
+                   | KFunc nn _ => nn || negb (can_be_nil g)
                    | KBatch nn _ => nn || is_list t
                    end.
 Proof. exact field_type_nullable. Qed.
